@@ -67,6 +67,10 @@ def check(case):
             continue
         out = {k: np.array(a.coords) for k, a in entry["atoms"].items()}
         added = [k for k in out if k not in names]
+        if g[0] == "chain" and any(k in ("OD1", "OD2", "OE1", "OE2") for k in added):
+            # carboxyl name exchange: an oxygen "not in the input" may be the supplied one under the
+            # other name - added atoms are those whose POSITION was not supplied
+            added = [k for k in added if not any(float(np.linalg.norm(out[k] - v)) < 1e-3 for v in names.values())]
         if g[0] == "water":
             if {"H1", "H2"} <= set(out) and "O" in out:
                 n_polar += 1
@@ -148,6 +152,14 @@ def check(case):
                         for nm_p, nm_q in ((p, q), (swap.get(p, p), swap.get(q, q))):
                             if q in names and in_p in names and nm_p in tmpl and nm_q in tmpl and topo.heavy(q):
                                 ldist = max(ldist, abs(geom.dist(names[in_p], names[q]) - geom.dist(tmpl[nm_p], tmpl[nm_q])))
+                if x == "O" and p == "C":
+                    # the carbonyl oxygen is fitted onto (C, CA, N of the next residue): the PEPTIDE
+                    # patch's N+1 pseudo-atom defines that frame, and the supplied link may differ from it
+                    nxt = A.inp.get(("chain", ci, i + 1), {}).get("N")
+                    if nxt is not None and "C" in names:
+                        pep = topo.PATCH["PEPTIDE"]["atoms"]["N+1"]
+                        ldist = max(ldist, abs(geom.dist(names["C"], nxt) - geom.dist(tmpl["C"], pep)),
+                                    0.02 * abs(geom.angle(names["CA"], names["C"], nxt) - geom.angle(tmpl["CA"], tmpl["C"], pep)) if "CA" in names else 0.0)  # fmt: skip
                 if abs(d - d0) > tol_len + 0.6 * ldist:
                     kind = "heavy" if topo.heavy(x) else "hydrogen"
                     res.bad(f"C05:bond-length:{kind}{suffix}",
